@@ -408,7 +408,7 @@ def r_sibling_outline(P, chk):
                               name, a, b, sorted(sa - sb)[:3], sorted(sb - sa)[:3]))
     chk.obl[rid][0] += n_cells
     chk.obl[rid][1] += n_cells
-    chk.floor(rid, n_cells, 300, "function x token-type cells compared")
+    chk.floor(rid, n_cells, 120, "function x token-type cells compared")
 
 
 def r_linestrip(P, chk):
